@@ -12,6 +12,10 @@ KINDS = {"t": "tag", "r": "soup", "s": "str", "c": "pre"}
 OPS = ["ap", "in", "et", "el", "ib", "ia", "rw", "wr", "uw", "ex", "cl", "de", "sm", "ss", "cd"]
 
 
+class _StrSub(str):
+    """a `str` subclass that is not a NavigableString"""
+
+
 class World:
     """A forest of real bs4 objects with labels."""
 
@@ -115,7 +119,10 @@ class World:
     # -- executing an op ---------------------------------------------------------------------
     def arg(self, a: str):
         if a.startswith("p"):
-            return a[1:] + "."
+            # plain text: an exact `str`, or an instance of a `str` subclass (an attribute value object, a StrEnum member, a user class):
+            # every `str` that is not already a NavigableString is wrapped into one (form = function of the label, so replays repeat it)
+            t = a[1:] + "."
+            return _StrSub(t) if int(a[1:]) % 3 == 0 else t
         return self.objs[a]
 
     def apply(self, op: str) -> str:
